@@ -1,0 +1,19 @@
+//go:build verif
+
+package routing
+
+import (
+	"lunar/engine/config"
+	"lunar/engine/streams"
+)
+
+// VerifBuildHAProxyFlowsEndpointsRequest runs buildHAProxyFlowsEndpointsRequest
+// (the managed-endpoint expressions registered with the proxy for the flows of a
+// loaded stream engine) for the given engine. Verification harness only.
+func VerifBuildHAProxyFlowsEndpointsRequest(
+	stream *streams.Stream,
+) *config.HAProxyEndpointsRequest {
+	rd := &HandlingDataManager{isStreamsEnabled: true} //nolint:exhaustruct
+	rd.stream = stream
+	return rd.buildHAProxyFlowsEndpointsRequest()
+}
